@@ -68,6 +68,23 @@ def mutate(text, rnd, nmut=None):
     words = [i for i, x in enumerate(t) if not x.isspace()]
     if not words:
         return rnd.choice(GARBAGE)
+    if kind < 0.42:
+        # cross-reference mutation: an identifier is replaced by another identifier of the same file (an objective name that
+        # names a constraint row, a range or bound on the objective row, a row name used as a column, a repeated definition ...)
+        ids = [i for i in words if re.match(r"[A-Za-z_][A-Za-z0-9_.\[\]]*$", t[i]) and t[i] not in KEYWORDS]
+        if len(ids) >= 2:
+            for _ in range(rnd.choice([1, 1, 2, 3])):
+                i, j = rnd.choice(ids), rnd.choice(ids)
+                if rnd.random() < 0.3:
+                    nm, to = t[i], t[j]
+                    lo = rnd.randrange(len(t))
+                    hi = min(len(t), lo + rnd.randint(5, 80))
+                    for q in range(lo, hi):
+                        if t[q] == nm:
+                            t[q] = to
+                else:
+                    t[i] = t[j]
+            return "".join(t)
     for _ in range(nmut or rnd.choice([1, 1, 1, 2, 3, 6])):
         i = rnd.choice(words)
         op = rnd.random()
